@@ -90,6 +90,22 @@ def tlc_job(ctx, name, module, cfg, workers=4, timeout=1500, coverage=False):
     return res
 
 
+def final_coverage_zero(r, modules):
+    """Actions with a zero count in the LAST coverage report of a TLC run.  (TLC -coverage 1 also prints interim
+    reports every minute; on a slow machine those list actions that simply have not been reached yet, so
+    TLCResult.coverage_zero(), which scans the whole output, must not be used for a vacuity verdict.)"""
+    chunks = r.text.split("The coverage statistics at")
+    last = chunks[-1] if len(chunks) > 1 else ""
+    if not last:
+        raise MachineryError(f"TLC printed no coverage report for {r.module}/{r.cfg}")
+    out = []
+    for ln in last.splitlines():
+        ln = ln.strip()
+        if re.search(r"^<\w+ line .*>: 0:0$", ln) and any(f"module {m}" in ln for m in modules):
+            out.append(ln)
+    return out
+
+
 def par_map(fn, items, workers=12):
     with cf.ThreadPoolExecutor(max_workers=workers) as ex:
         return list(ex.map(fn, items))
@@ -212,10 +228,7 @@ def package_files(decls):
     return files
 
 
-SEL_PROBE = """{{- range .Interfaces }}
-{"iface":{{ printf "%q" .Name }},"struct":{{ printf "%q" .StructName }},"entry":{{ with index .TemplateData "entry" }}{{ . }}{{ else }}0{{ end }},"case":{{ printf "%q" (printf "%v" (index .TemplateData "case")) }}}
-{{- end }}
-"""
+SEL_PROBE = (PROBES / "selection.templ").read_text()
 
 
 def sel_level(rec):
@@ -503,10 +516,7 @@ def sel_judge(ctx, cases, results):
 
 # ---------------------------------------------------------------------------------------------- Part B: recursive
 LAB = ["r", "a", "b", "c", "d"]
-REC_PROBE = """{{- range .Interfaces }}
-{"iface":{{ printf "%q" .Name }},"struct":{{ printf "%q" .StructName }},"marker":{{ printf "%q" (printf "%v" (index .TemplateData "marker")) }}}
-{{- end }}
-"""
+REC_PROBE = (PROBES / "recursive.templ").read_text()
 
 
 def node_paths(c):
@@ -688,7 +698,7 @@ def rec_model(ctx, tlc_results, thorough):
         elif not r.ok:
             raise MachineryError(f"TLC failed on Recursive/{fam}:\n" + r.tail())
         if thorough:
-            z = [ln for ln in r.coverage_zero() if "Recursive" in ln]
+            z = final_coverage_zero(r, ["Recursive"])
             if z:
                 raise MachineryError(f"vacuous: actions of Recursive.tla never taken in family {fam}: {z}")
         uniq = {}
@@ -886,7 +896,7 @@ def run(ctx):
     tick(ctx, "tlc_and_build", t0)
     t0 = time.time()
     if thorough:
-        z = [ln for ln in r_sel.coverage_zero() if "Selection" in ln]
+        z = final_coverage_zero(r_sel, ["Selection"])
         if z:
             raise MachineryError(f"vacuous: actions of Selection.tla never taken: {z}")
     sel_cases, decls = sel_model(ctx, r_sel)
